@@ -339,6 +339,7 @@ def c01_rf18(run):
     rf_proto.rf138(run)
     rf_x86.rf140(run)
     rf_flow.rf148(run)
+    rf_fold.rf149(run)
 
 
 def c04_rf18(run):
@@ -389,6 +390,7 @@ def c16_rf16(run):
     rf_proto.rf107(run)
     rf_proto.rf120(run)
     rf_iface.rf31b(run)
+    rf_iface.rf132(run)
     rf_proto.rf66(run)
     run.min_instances('RF66', 4)
     rf_x86.rf77(run)
@@ -410,6 +412,7 @@ def c13_rf16(run):
     rf_proto.rf123(run)
     rf_proto.rf136(run)
     rf_proto.rf138(run)
+    rf_proto.rf150(run)
 
 
 def c14_rf16f(run):
@@ -424,6 +427,8 @@ def c14_rf16f(run):
     rf_iface.rf89(run)
     rf_proto.rf128(run)
     rf_iface.rf132(run)
+    rf_iface.rf151(run)
+    rf_proto.rf16m(run)
 
 
 def c02_rf7a(run):
@@ -465,6 +470,7 @@ def c03_rf11(run):
     rf_x86.rf124(run)
     rf_iface.rf132(run)
     rf_iface.rf147(run)
+    rf_iface.rf151(run)
     rf_abi.rf111(run)
 
 
@@ -559,6 +565,7 @@ def c02_rf26(run):
     rf_fold.rf87(run)
     rf_fold.rf100(run)
     rf_fold.rf141(run)
+    rf_fold.rf149(run)
 
 
 PLAN = {
